@@ -228,6 +228,47 @@ CLAIMS["C09"] = {
     "ref": "DESIGN.md section 7 C09",
 }
 
+CLAIMS["C05"] = {
+    "text": "Fourteen Coq theorems (Props/C05.v). C05_roundtrip: for every well-formed message value (dns_wf: the per-type wire "
+            "constraints as a boolean predicate - legal names, UTF-8 strings <= 255, registered code points, widths, the validated "
+            "types' invariants, sections <= 65,535) whenever enc_Dns m = Ok b the model decoder reads b back as m up to ASCII case "
+            "of labels and the order of mandatory keys; C05_reference_reads_back: so does the INDEPENDENT reference decoder "
+            "Spec/Wire.v (via C03); element-level forms for records and names from any encoder state satisfying the name-layer "
+            "invariant, for all 46 record types incl. OPT, APL, SVCB/HTTPS. The layout clauses are theorems of C08 (counts, every "
+            "RDLENGTH / option / SvcParam / APL length exact, size <= 65,535, pointer offsets <= 16383) and C06 (every pointer "
+            "refers backwards to a label start of an earlier written name, <= 16 hops). Unbounded. Tie: E Dns byte-exact vs the "
+            "model over random valid values of the whole vocabulary, boundary values, nesting 1..64, placements around 0x3FFF, "
+            "16-64 KiB; the implementation's bytes are re-read by the Python reference decoder (value, counts, lengths, pointers).",
+    "note": "'encode succeeds for every value within the limits' is proved for names (C06_never_fails) and observed on the streams; the message-level statement (failure only by the 65,535 limit) is not yet a theorem. " + NOTE_COMMON,
+    "technique": "Coq proof (encode/decode round trip through the name-layer invariant, composed with the refinement to an independent reference decoder) + byte-exact differential correspondence + reference-decoder oracle",
+    "ref": "DESIGN.md section 7 C05",
+}
+CLAIMS["C02"] = {
+    "text": "Six Coq theorems (Props/C02.v): C02_decoded_wf - every message the model decoder accepts satisfies the wire constraints "
+            "dns_wf (so decoded values are always within the encoder's domain); C02_reencode - if it then encodes, decoding the "
+            "result yields the same message field by field (header, every section in order, owner names, TTL, class, every RDATA "
+            "field, every EDNS option, every SvcParam value; names up to ASCII case); C02_reencode_reference - the independent "
+            "reference decoder agrees. Element forms for RR/question/name. Tie: D Dns cases with re-encode and second decode on "
+            "repository vectors, structured messages in every layout, near-miss and byte-level mutations, nesting 1..64 (the "
+            "pre-fix compress() failed at 18), 20/60 KiB; oracle: accepted and uncompressed size <= 65,535 => re-encodes and the "
+            "second decode is equal field by field.",
+    "note": "'encoding succeeds whenever the uncompressed size fits' is checked by the oracle on every accepted case; as a theorem only the name layer is covered (C06_never_fails). The mandatory key list is compared as a set (emission sorts it). " + NOTE_COMMON,
+    "technique": "Coq proof (decoder output is well-formed; round trip) + differential D cases with re-encode / second decode",
+    "ref": "DESIGN.md section 7 C02",
+}
+CLAIMS["C10"] = {
+    "text": "Four Coq theorems (Props/C10.v): enc_RR/dec_RR, enc_Question/dec_Question, enc_DomainName/dec_DomainName and "
+            "enc_Flags/dec_Flags round-trip for every well-formed value (all 46 record types; Flags exactly); the code entry "
+            "points are C11_code_points; 'what an independent decoder expects at offset 0' follows with C03_sound_RR/Question/"
+            "DomainName/Flags. Tie: E cases on every stand-alone encode entry point and on the record structs' own encode (33 "
+            "structs), the same element as the only element of a message - the bytes must be equal up to the shift of pointer "
+            "offsets by 12 (cross-case oracle) - D cases on RR/Question/DomainName with re-encode and second decode; reference "
+            "decoder reads every output at offset 0.",
+    "note": "The first-element-of-a-message clause (relocation of pointer offsets by 12) is decided by the cross-case oracle, not by a theorem. " + NOTE_COMMON,
+    "technique": "Coq proof (element round trips from the empty encoder state) + byte-exact differential correspondence + cross-case relocation oracle",
+    "ref": "DESIGN.md section 7 C10",
+}
+
 REASON_PENDING = "check not built yet (work in progress; see DESIGN.md section 10)"
 
 
